@@ -68,6 +68,32 @@ add("C18", "fault_enumeration",
     "Every fault of the catalogue at every position of every corpus entry is applied to every decoder; a call must return (value or error) without panic, within an allocation budget and a step/time budget re-checked five times; TLS message and ticket parsers are reached through real endpoints in the C15/C16 checks.",
     "password-KDF iteration counts are never mutated and password-based decoders are exempt from timing, as the statement allows", "DESIGN.md §3 C18")
 
+add("C06", "model_checking",
+    "exhaustive enumeration of the configuration product on real endpoints over a deterministic in-memory network, compared with a negotiation reference model; every captured GMSSL session re-decoded by an independent GM/T 0024 implementation; bounded exhaustive data-phase write histories",
+    "Every configuration of the stated product (server mode x client kind x suite lists x preference x ClientAuth x client certificate x certificate source x tickets x TLS version x certificate type) is executed with real library endpoints (and Go's crypto/tls as the independent TLS peer in both roles); the model predicts completion, version and suite; both ends' views, exported keying material, peer certificates and delivered bytes are compared; GMSSL wire captures are decoded independently (pre-master secret decrypted with the reference SM2, master secret, key block, Finished, every record).",
+    "gmrec/refsm2/refsm3/refsm4 as independent GMSSL decoder; crypto/tls as independent TLS implementation", "DESIGN.md §3 C06")
+add("C07", "fault_enumeration",
+    "fault enumeration by a record-aware man in the middle between two real endpoints: every structural fault and every bit flip at every protected record of a session, layout of the honest session obtained from the independent decoder",
+    "One fault per run from the catalogue (bit flips, truncations/extensions, header rewrites, drop/duplicate/swap/replay, cross-direction and cross-connection records) at every protected record of both directions for both GMSSL suites; what the receiver delivers must be a prefix of what was sent, nothing from the affected record on, and it must end with a fatal error; IV/nonce freshness on honest traffic.",
+    "no keyed scripted peer: faults needing the record keys (valid MAC with chosen padding, wrong sequence number under the right key) are not covered", "DESIGN.md §3 C07")
+add("C08", "fault_enumeration",
+    "attacker catalogue enumerated exhaustively: malicious peers expressed through configuration x policies, and a man in the middle editing every byte / dropping / duplicating / splicing / reordering every plaintext handshake message, on GMSSL and on TLS 1.2 against crypto/tls",
+    "Every listed malicious identity against a verifying client, every listed client identity under every ClientAuth policy against a server (acceptance predicted), and every single-byte rewrite and structural edit of every handshake message in transit: the attacked endpoint must abort and never both complete.",
+    "attacks that need a peer recomputing Finished over a non-standard transcript (e.g. omitted ServerKeyExchange) need the scripted reference peer", "DESIGN.md §3 C08")
+add("C15", "model_checking",
+    "deviation-bounded exploration of scripted handshakes (every single deviation from the honest trace at every message of both directions, end of stream after every record) plus exhaustive first-flight spaces (every hello version 0x0000-0x0400 x suite lists x compression)",
+    "For every server mode and client-auth setting the honest trace is the default and each deviation of a 60-entry catalogue is applied at each message; all ClientHello/ServerHello versions are swept. Never a panic, never an endpoint waiting after end of stream, never completion after a non-conformant deviation.",
+    "deviations are injected in transit (Finished then mismatches); conformant variations are recorded, not judged", "DESIGN.md §3 C15")
+add("C16", "model_checking",
+    "bounded exhaustive exploration of connection/rotation/configuration histories (all operation sequences to depth 3/4 over 13 operations) on real Configs with an LRU client cache, compared with a resumption reference model; fault enumeration over every byte/truncation of a ticket and authentic tickets with altered state",
+    "Every history within the depth bound runs on real client and server configurations; the model (key rings, LRU cache entries, policies) predicts MUST/MUST NOT/MAY resume for each connection and the observed DidResume, parameters, exported keys and data are compared; raw replays of a ticket-bearing ClientHello with every ticket byte changed never resume and never crash.",
+    "resumption observed through DidResume and the shape of the server's first flight", "DESIGN.md §3 C16")
+
+add("C20", "model_checking",
+    "stateless model checking of goroutine interleavings under a controlled cooperative scheduler with iterative preemption bounding (<=2/3 preemptions), scheduling points at every sync/atomic operation (shims) and at every statement of functions sharing plain memory (AST instrumentation via go build -overlay); separate free-running pass under the race detector",
+    "For each small colliding scenario every schedule within the preemption bound is executed on the real code and every thread's result is compared with the sequential outcome (deadlock and step-budget detection included); the same and larger bodies (shared Config with key rotation, client cache, one Conn with concurrent Write/Read/Close/Handshake, CertPool, package-level calls) run free under -race and every reported race is a violation.",
+    "scheduling points only where instrumented; races elsewhere are found by the -race pass, which is a dynamic detector over the executed bodies", "DESIGN.md §3 C20")
+
 NA_REASON = "check not built yet in this session (work in progress; DESIGN.md §3 describes the planned bounded exhaustive check)"
 
 def main():
@@ -81,7 +107,7 @@ def main():
             "thorough_cmd": f"./run.sh {i} thorough",
             "evidence_file": f"/verif/evidence/{i}.json",
             "replay_cmd_template": f"./run.sh {i} --replay {{path}}",
-            "engine": "xp+harness",
+            "engine": "vsched+xp" if i == "C20" else "xp+harness",
             "level_claimed": {"category": c["level"], "text": c["text"], "design_ref": c["ref"]},
             "level_note": c["note"],
             "technique": c["technique"],
@@ -98,7 +124,9 @@ def main():
             "add_only": True,
         },
         "engines": [
-            {"name": "xp+harness", "path": "/verif/mc", "serves_properties": sorted(CHECKS),
+            {"name": "vsched+xp", "path": "/verif/mc/vsched", "serves_properties": ["C20"],
+             "kind_free_text": "hand-written controlled scheduler for goroutines: sync/atomic shims and statement-level scheduling points injected with go build -overlay (cmd/instr), iterative preemption bounding driven by the xp explorer, plus a free-running -race pass"},
+            {"name": "xp+harness", "path": "/verif/mc", "serves_properties": sorted(k for k in CHECKS if k != "C20"),
              "kind_free_text": "hand-written stateless explorer of choice points (deviation/depth bounded DFS with replay) over the real Go code, sharded over worker processes; independent reference models in mc/ref"},
         ],
         "checks": checks,
